@@ -146,6 +146,26 @@ Theorem C05_doc_end_fixed :
 Proof. vm_compute. repeat split. Qed.
 Print Assumptions C05_doc_end_fixed.
 
+(* a.lua: local a = 1, 2, 3, function(p) return p end\nuse(a)\n *)
+Definition src_surplus_closure : list N :=
+  [108; 111; 99; 97; 108; 32; 97; 32; 61; 32; 49; 44; 32; 50; 44; 32; 51; 44; 32; 102; 117; 110; 99; 116; 105; 111; 110; 40; 112; 41; 32; 114; 101; 116; 117; 114; 110; 32; 112; 32; 101; 110; 100; 10; 117; 115; 101; 40; 97; 41; 10].
+(* unvisited_local_surplus, FIXED (fixes/C20-local-surplus.diff): cgLocalVarDeclStat left its expression loop (`break`)
+   after the FIRST initialiser beyond the names of `local a = 1, 2, <here>, <and here>`: the later ones were never
+   analysed by any pass - their closures got no scope, the names read there no reference.  `before_surplus` = the code
+   of /repo before that repair; the witness deviates there and no longer for the code now in /repo. *)
+(* the closure in the last value had no scope: go-to-definition on its parameter p (line 0, column 38) found nothing *)
+Theorem C05_local_surplus_refuted_before_fix :
+  all_in_fragment [(a_lua, src_surplus_closure)] = true /\
+  run_define_fx before_surplus [(a_lua, src_surplus_closure)] a_lua 0 38 = ALocs [] /\
+  option_map s_bind (spec_occ [(a_lua, src_surplus_closure)] a_lua 0 38) = Some (BLocal (mk_loc 1 28 1 29)).
+Proof. vm_compute. repeat split. Qed.
+Print Assumptions C05_local_surplus_refuted_before_fix.
+Theorem C05_local_surplus_fixed :
+  run_define [(a_lua, src_surplus_closure)] a_lua 0 38 = ALocs [(a_lua, mk_loc 1 28 1 29)] /\
+  option_map s_bind (spec_occ [(a_lua, src_surplus_closure)] a_lua 0 38) = Some (BLocal (mk_loc 1 28 1 29)).
+Proof. vm_compute. repeat split. Qed.
+Print Assumptions C05_local_surplus_fixed.
+
 (* ---- the guard of the partial theorem is satisfiable by a non-trivial program: every one of its occurrences is
    untagged, it is in the fragment and Laid, and the position resolver agrees with the reference binder on it *)
 Example C05_guard_nonvacuous :
@@ -309,3 +329,39 @@ Example C05_wide_witness :
   run_define_wide w_wide a_lua 2 22 = ALocs [l_def] /\ run_define_wide w_wide a_lua 2 36 = ALocs [l_def] /\
   run_define_wide w_wide a_lua 3 27 = ALocs [l_def].
 Proof. vm_compute. repeat split; reflexivity. Qed.
+
+(* ================================================================== boundary cursors (end-inclusive Loc tests)
+   Loc end columns are exclusive; IsContainLoc / isInLocation compare them inclusively and the handlers look the cursor
+   up as a POINT.  Two cursor-dependent classes besides B1_adjacent_local_end (Spec/LuaScopeWide.v, end of file): *)
+(* a.lua: local v = 1\nrepeat local v = 2 until 's'v = 3\n *)
+Definition src_repeat_end : list N :=
+  [108; 111; 99; 97; 108; 32; 118; 32; 61; 32; 49; 10; 114; 101; 112; 101; 97; 116; 32; 108; 111; 99; 97; 108; 32; 118; 32; 61; 32; 50; 32; 117; 110; 116; 105; 108; 32; 39; 115; 39; 118; 32; 61; 32; 51; 10].
+(* adjacent_repeat_end (open): the scope of a `repeat` block ends with the `until` expression - the only block end that is
+   not a keyword.  An identifier glued to it starts on the (inclusive) end column of the scope: with the cursor on its
+   FIRST column (line 1, column 28) the v of `v = 3` is looked up inside the block and jumps to the inner v; on its other
+   column (29) the answer is right.  Core fragment; outside Laid2 (an end mark directly followed by a start mark). *)
+Theorem C05_adjacent_repeat_end_refuted :
+  all_in_fragment [(a_lua, src_repeat_end)] = true /\
+  at_repeat_end (rends_block (chunk_of src_repeat_end)) 2 28 = true /\
+  run_define [(a_lua, src_repeat_end)] a_lua 1 28 = ALocs [(a_lua, mk_loc 2 13 2 14)] /\
+  option_map s_bind (spec_occ [(a_lua, src_repeat_end)] a_lua 1 28) = Some (BLocal (mk_loc 1 6 1 7)) /\
+  run_define [(a_lua, src_repeat_end)] a_lua 1 29 = ALocs [(a_lua, mk_loc 1 6 1 7)].
+Proof. vm_compute. repeat split. Qed.
+Print Assumptions C05_adjacent_repeat_end_refuted.
+
+(* a.lua: local n\nn = v[n]()\nuse(n)\n *)
+Definition src_b4_boundary : list N :=
+  [108; 111; 99; 97; 108; 32; 110; 10; 110; 32; 61; 32; 118; 91; 110; 93; 40; 41; 10; 117; 115; 101; 40; 110; 41; 10].
+(* B4 at the boundary (class B4_forward_decl, wide fragment): the Loc of a call starts at the LAST token of its callee
+   (`v[n]()`: at `]`).  The call re-points the local n declared without a value; the n inside the brackets is NOT
+   contained in the call's Loc (no tag CB4 on the occurrence), but the cursor at its END (line 1, column 7) is the first
+   column of that Loc: n is not found there; on its first column (6) it is.  b4_boundary is the class predicate the
+   legs use for such a cursor. *)
+Theorem C05_B4_boundary_refuted :
+  all_in_wide [(a_lua, src_b4_boundary)] = true /\
+  option_map (fun o => (s_bind o, s_cls o, b4_boundary (rp_block (chunk_of src_b4_boundary)) o 2 7))
+             (spec_occ_wide [(a_lua, src_b4_boundary)] a_lua 1 7) = Some (BLocal (mk_loc 1 6 1 7), [], true) /\
+  run_define_wide [(a_lua, src_b4_boundary)] a_lua 1 7 = ALocs [] /\
+  run_define_wide [(a_lua, src_b4_boundary)] a_lua 1 6 = ALocs [(a_lua, mk_loc 1 6 1 7)].
+Proof. vm_compute. repeat split. Qed.
+Print Assumptions C05_B4_boundary_refuted.
